@@ -612,14 +612,16 @@ def real_runs(ctx, solvers, T, add, guarded):
     quick = ctx.tier == 'quick'
     adaptive_names = ['sdirk21', 'dirk34', 'esdirk23', 'esdirk34'] + T.ROS
     plan = []
+    JSTYLES = ['fresh', 'buffer', 'csr-inplace']     # how the J callback hands out its matrix
     for name in adaptive_names:
         for nonlinear in (False, True):
             for rep in range(1 if quick else 4):
-                plan.append((name, 'adaptive', nonlinear))
+                plan.append((name, 'adaptive', nonlinear, JSTYLES[int(rng.integers(0, 3))]))
     for name in T.DIRK + T.ROS:
-        for nonlinear in (False, True):
-            plan.append((name, 'constant', nonlinear))
-    for (name, mode, nonlinear) in plan:
+        plan.append((name, 'constant', False, 'fresh'))
+        for js in JSTYLES:
+            plan.append((name, 'constant', True, js))
+    for (name, mode, nonlinear, jstyle) in plan:
         n = int(rng.integers(1, 4))
         M = spd_int(rng, n) if (name in T.ROS or rng.integers(0, 3) > 0) else np.eye(n)
         S = rng.integers(-2, 3, size=(n, n)).astype(float); Kk = rng.integers(-1, 2, size=(n, n)).astype(float)
@@ -635,9 +637,24 @@ def real_runs(ctx, solvers, T, add, guarded):
         if sparse_:
             Js = scipy.sparse.csr_matrix(-K); J = lambda y, Js=Js: Js
             Mobj = scipy.sparse.csr_matrix(M)
-        else:
-            J = lambda y, K=K, d=d: -K - 3 * np.diag(d * y * y)
+        elif not nonlinear or jstyle == 'fresh':
+            J = lambda y, K=K, d=d: -K - 3 * np.diag(d * y * y)          # a new array on every call
             Mobj = M
+        elif jstyle == 'buffer':
+            buf = np.empty((n, n))
+            def J(y, K=K, d=d, buf=buf):                                   # ONE preallocated dense buffer, refilled
+                buf[:] = -K - 3 * np.diag(d * y * y)
+                return buf
+            Mobj = M
+        else:
+            mask = (K != 0) | np.eye(n, dtype=bool)
+            Jc = scipy.sparse.csr_matrix(np.where(mask, 1.0, 0.0))
+            Jc.sort_indices()
+            ridx = np.repeat(np.arange(n), np.diff(Jc.indptr))
+            def J(y, K=K, d=d, Jc=Jc, ridx=ridx):                          # ONE CSR matrix, .data rewritten in place
+                Jc.data[:] = (-K - 3 * np.diag(d * y * y))[ridx, Jc.indices]
+                return Jc
+            Mobj = scipy.sparse.csr_matrix(M)
         Jd = lambda y, K=K, d=d: -K - 3 * np.diag(d * y * y)
         Fd = lambda y, K=K, d=d, g=g: -(K @ y) - d * y * y * y + g
         meth = getattr(solvers, name)
@@ -652,10 +669,10 @@ def real_runs(ctx, solvers, T, add, guarded):
                 call = lambda: meth(Mobj, F, J, x0.copy(), tau0, t_end, None)
         with Recorder(solvers, fcount) as R:
             tag, out = guarded(call)
-        desc = {'method': name, 'mode': mode, 'nonlinear': nonlinear, 'M': M.tolist(), 'sparse': bool(sparse_), 'K': K.tolist(), 'd': d.tolist(),
+        desc = {'method': name, 'mode': mode, 'nonlinear': nonlinear, 'J_callback': jstyle if nonlinear else ('csr constant' if sparse_ else 'fresh'), 'M': M.tolist(), 'sparse': bool(sparse_), 'K': K.tolist(), 'd': d.tolist(),
                 'g': g.tolist(), 'x0': x0.tolist(), 'tau0': tau0, 't_end': t_end, 'tol': tol, 'F': 'F(y) = -K@y - d*y**3 + g, J(y) = -K - 3*diag(d*y**2)'}
         ctx.case(('run', name, mode, nonlinear, str(desc)), nontrivial=True)
-        ctx.count('run:%s:%s' % (mode, 'nonlinear' if nonlinear else 'linear'))
+        ctx.count('run:%s:%s' % (mode, ('nonlinear J=' + jstyle) if nonlinear else 'linear'))
         if tag != 'ok':
             ctx.violation('ode-run:' + name, '%s (%s run) raised %s' % (name, mode, tag), desc, True); continue
         times, sols = out
